@@ -459,6 +459,40 @@ class EnumLengths(object):
         return check_set([mod], ['TEST-MIB'], 'C04|enum-length|%s|%s|n=%d' % (case['kind'], case['where'], n))
 
 
+class SingleValueConstraints(object):
+    name = 'single-value-range-and-size-alternatives'
+    describe = ('ranges and SIZEs whose alternatives are single values - decimal, hex literal, binary literal, alone or next to a '
+                'two-ended alternative - on an object, a type assignment and a TEXTUAL-CONVENTION: valid Python that executes and '
+                'agrees with JSON')
+
+    VALUES = [5, "'10'H", "'1010'B", "'0a'h", "'0'h"]
+
+    def blocks(self, tier):
+        return [{'where': w} for w in ('object', 'type', 'tc')]
+
+    def cases(self, block, tier):
+        for i in range(len(self.VALUES)):
+            for kind in ('range', 'size'):
+                for mixed in (0, 1):
+                    yield {'where': block['where'], 'v': i, 'kind': kind, 'mixed': mixed}
+
+    def run_case(self, case):
+        v = self.VALUES[case['v']]
+        alts = [(v,)] if not case['mixed'] else [(0, 3), (v,), ("'20'H", "'ff'H")]
+        syn = ('simple', 'Integer32', ('range', alts)) if case['kind'] == 'range' else ('simple', 'OCTET STRING', ('size', alts))
+        decls = C03.context()
+        if case['where'] == 'object':
+            decls.append(C03ot('theObj', syn, ['ctxRoot', 50]))
+        elif case['where'] == 'type':
+            decls += [{'k': 'type', 'name': 'TheType', 'syntax': syn}, C03ot('theObj', ('ref', 'TheType'), ['ctxRoot', 50])]
+        else:
+            decls += [{'k': 'tc', 'name': 'TheType', 'display': None, 'status': 'current', 'descr': 'd', 'syntax': syn},
+                      C03ot('theObj', ('ref', 'TheType'), ['ctxRoot', 50])]
+        mod = refir.finish_module({'name': 'TEST-MIB', 'decls': decls})
+        return check_set([mod], ['TEST-MIB'], 'C04|single-value|%s|%s|%s%s' % (
+            case['kind'], case['where'], 'decimal' if isinstance(v, int) else 'literal', '|mixed' if case['mixed'] else ''))
+
+
 class LoadTogether(object):
     name = 'sets-that-must-load-together'
     describe = ('module sets whose imports are legal but awkward for a loader, loaded with the REAL pysnmp MibBuilder after compiling: '
@@ -535,4 +569,4 @@ def _option_histories():
     return OptionHistories()
 
 
-FAMILIES = [Sequences(), CrossModule(), Identifiers(), TypeChains(), Texts(), AccessWords(), NoImportsClause(), EnumLengths(), LoadTogether(), _option_histories()]
+FAMILIES = [Sequences(), CrossModule(), Identifiers(), TypeChains(), Texts(), AccessWords(), NoImportsClause(), EnumLengths(), SingleValueConstraints(), LoadTogether(), _option_histories()]
